@@ -31,7 +31,9 @@ EvByte ==
 EvPair ==
   /\ Trace[l].ev = "pair"
   /\ LET e == Trace[l]
-         judged == IsLetter(e.s) \/ ~IsLetter(e.q)    \* a sequence byte outside the alphabet has no base set
+         \* a sequence byte outside the alphabet has no base set: no query LETTER may match it - except N,
+         \* which the code reads as "any residue" (whether N should match a non-letter is not specified)
+         judged == IsLetter(e.s) \/ ~IsLetter(e.q) \/ Up(e.q) # 78
          vs == IF e.panic # "" THEN {"match-panic"}
                ELSE If(judged /\ e.hit # LetterMatch(e.q, e.s), {"match-table"})
          calc == IF e.panic = "" /\ "MatchK" \in Devs /\ Up(e.q) = 75 /\ e.hit = LetterMatchC(e.q, e.s) THEN "dev:MatchK" ELSE "-"
@@ -40,7 +42,7 @@ EvPair ==
 EvScan ==
   /\ Trace[l].ev = "scan"
   /\ LET e == Trace[l]
-         letters == \A j \in 1..Len(e.s) : IsLetter(e.s[j]) \/ \A q \in 1..Len(e.q) : ~IsLetter(e.q[q])
+         letters == \A j \in 1..Len(e.s) : IsLetter(e.s[j]) \/ (\A q \in 1..Len(e.q) : ~IsLetter(e.q[q])) \/ (\A q \in 1..Len(e.q) : Up(e.q[q]) # 78)
          vs == (IF e.spanic # "" THEN {"search-panic"} ELSE If(e.search # SearchAll(e.s, e.q), {"search"}))
                \cup (IF e.mpanic # "" THEN {"match-panic"} ELSE If(letters /\ e.match # MatchScan(e.s, e.q), {"match-scan"}))
          calc == IF e.mpanic = "" /\ e.spanic = "" /\ e.search = SearchAll(e.s, e.q) /\ "MatchK" \in Devs /\ HasK(e.q)
